@@ -54,13 +54,53 @@ type Link struct {
 	hold                            bool  // deliveries suspended (packets stay in flight)
 	sendErr                         error // when set, send fails (transport broken)
 	stall                           bool  // send blocks until its context is done (a transport that accepts nothing)
+	// calls into the transport that are in progress right now (a thread
+	// parked at the entry point counts: it is inside the user's function)
+	activeSend, activeRecv int
+	sender, receiver       *Endpoint
 }
 
 func newLink(w *World, name string) *Link {
 	return &Link{name: name, w: w, inbox: make(chan []byte, 1<<14)}
 }
 
+// enter / leave bracket one call of an endpoint into its transport function.
+func (l *Link) enter(send bool) {
+	l.mu.Lock()
+	e := l.receiver
+	if send {
+		l.activeSend++
+		e = l.sender
+	} else {
+		l.activeRecv++
+	}
+	l.mu.Unlock()
+	if e != nil && !l.w.free && !l.w.draining {
+		e.mu.Lock()
+		if e.closeReturned && e.lateTransport == "" {
+			what := "recv"
+			if send {
+				what = "send"
+			}
+			e.lateTransport = fmt.Sprintf("%s called at %v", what, l.w.now())
+		}
+		e.mu.Unlock()
+	}
+}
+
+func (l *Link) leave(send bool) {
+	l.mu.Lock()
+	if send {
+		l.activeSend--
+	} else {
+		l.activeRecv--
+	}
+	l.mu.Unlock()
+}
+
 func (l *Link) send(ctx context.Context, b []byte) error {
+	l.enter(true)
+	defer l.leave(true)
 	vrt.Point("net.send:" + l.name)
 	if err := ctx.Err(); err != nil {
 		return err
@@ -111,6 +151,8 @@ func (l *Link) send(ctx context.Context, b []byte) error {
 }
 
 func (l *Link) recv(ctx context.Context) ([]byte, error) {
+	l.enter(false)
+	defer l.leave(false)
 	vrt.Point("net.recv:" + l.name)
 	// Data first, so that the outcome never depends on the runtime's
 	// random select choice.
@@ -203,6 +245,9 @@ type CallRec struct {
 	Err      string
 	// StartSeq / EndSeq order calls within one virtual instant.
 	StartSeq, EndSeq int64
+	// Busy (close calls): what the connection was still doing in its
+	// transport when the call returned.
+	Busy string
 }
 
 // Endpoint is one side of the connection.
@@ -226,6 +271,10 @@ type Endpoint struct {
 	// closedAt is the virtual time at which the endpoint's quit channel
 	// was first seen closed (-1 = still open).
 	closedAt time.Duration
+	// closeReturned: some Close call of the application has returned;
+	// lateTransport: a call into the transport that began after that.
+	closeReturned bool
+	lateTransport string
 }
 
 func (e *Endpoint) begin(thread, kind string, data []byte) *CallRec {
@@ -307,6 +356,22 @@ func (e *Endpoint) runScript(thread string, ops []Op) {
 			c := e.begin(thread, "close", nil)
 			err := e.Conn.Close()
 			e.finish(c, nil, err)
+			if !e.w.free && !e.w.draining {
+				// When Close has returned the connection has let go
+				// of the transport: no call into it is in progress.
+				e.out.mu.Lock()
+				as := e.out.activeSend
+				e.out.mu.Unlock()
+				e.in.mu.Lock()
+				ar := e.in.activeRecv
+				e.in.mu.Unlock()
+				e.mu.Lock()
+				e.closeReturned = true
+				if as+ar > 0 && c.Busy == "" {
+					c.Busy = fmt.Sprintf("%d send and %d recv call(s) of the connection into its transport still in progress", as, ar)
+				}
+				e.mu.Unlock()
+			}
 		case "setsend":
 			e.Conn.SetSendTimeout(op.D)
 		case "setrecv":
@@ -351,6 +416,7 @@ type World struct {
 	foreign     []string
 	canonical   bool // the schedule has no deviation at all
 	free        bool // free-running (race pass): links deliver by themselves
+	draining    bool // the harness is shutting the run down
 	endAt       time.Duration
 	endState    [2]string // client, server state when the run proper ended
 	endSnap     [2]gbn.VerifSnap
@@ -398,6 +464,8 @@ func newWorld(s *vrt.Sched, sc *Scenario) *World {
 	w.s2c = newLink(w, "s2c")
 	w.C = &Endpoint{Name: "client", w: w, out: w.c2s, in: w.s2c, closedAt: -1}
 	w.S = &Endpoint{Name: "server", w: w, out: w.s2c, in: w.c2s, closedAt: -1}
+	w.c2s.sender, w.c2s.receiver = w.C, w.S
+	w.s2c.sender, w.s2c.receiver = w.S, w.C
 	w.C.ctx, w.C.cancel = context.WithCancel(context.Background())
 	w.S.ctx, w.S.cancel = context.WithCancel(context.Background())
 
@@ -652,6 +720,7 @@ func (w *World) BeforeDrain(s *vrt.Sched) {
 // Drain implements the optional drain hook: shut both ends down the way an
 // application would, from fresh goroutines (Close may block).
 func (w *World) Drain(s *vrt.Sched) {
+	w.draining = true
 	if w.sc.NoDrainClose {
 		return
 	}
